@@ -121,7 +121,7 @@ theorem keys_flatMap_bySize (src : Content κ) (ds : List Int) :
   induction ds with
   | nil => rfl
   | cons s ds ih =>
-    simp only [List.flatMap_cons, AL.keys_append, ih, keysOfSize, keysOf]
+    simp only [List.flatMap_cons, C05AL.keys_append, ih, keysOfSize, keysOf]
     rw [keys_filter]
 
 theorem nodup_flatMap_bySize (src : Content κ) (hnd : (keysOf src).Nodup) (ds : List Int) (hds : ds.Nodup) :
@@ -274,17 +274,17 @@ theorem edgesSub_spec (src : Content κ) (order size : Option Int) (upTo keepIso
   have hkr : AL.keys r.edges = AL.keys L := by
     have := hk; simp only [keysOf, he2', hkb] at this; exact this
   have her : r.edges = L := by
-    apply AL.ext _ _ hkr (hkr ▸ hndL)
+    apply C05AL.ext _ _ hkr (hkr ▸ hndL)
     intro k hkin
     rw [hkr] at hkin
     obtain ⟨e, heL, hek⟩ := List.mem_map.1 hkin
     obtain ⟨k', w, md⟩ := e
     simp only at hek; subst hek
     have hsrc : AL.get? src.edges k' = some (w, md) :=
-      AL.get?_of_mem_nodup _ _ _ hwf.keys_nodup (hL _ heL)
+      C05AL.get?_of_mem_nodup _ _ _ hwf.keys_nodup (hL _ heL)
     have hbare : AL.get? bare k' = some (w, []) :=
-      AL.get?_of_mem_nodup _ _ _ (hkb ▸ hndL) (List.mem_map.2 ⟨(k', (w, md)), heL, rfl⟩)
-    rw [hg k', if_pos hkin, he2', hbare, hsrc, AL.get?_of_mem_nodup _ _ _ hndL heL]
+      C05AL.get?_of_mem_nodup _ _ _ (hkb ▸ hndL) (List.mem_map.2 ⟨(k', (w, md)), heL, rfl⟩)
+    rw [hg k', if_pos hkin, he2', hbare, hsrc, C05AL.get?_of_mem_nodup _ _ _ hndL heL]
     rfl
   have hnr : nodesOf r = nodesOf h1 := by simp only [nodesOf, hn]; exact hk2
   refine ⟨r, ?_, by rw [hw, hw2]; exact h0w, her, ?_, ?_, ?_⟩
